@@ -9,6 +9,7 @@ import hashlib
 import itertools
 import json
 
+from harness.detloop import NoProgress
 from harness.chainlab import SCRIPTS, SLOTS, CB
 from harness.mempoollab import MempoolRun
 from harness.indexlab import StopRun
@@ -62,6 +63,10 @@ class Client:
         self.session = None
 
 
+class NotifyBegun(Exception):
+    '''_notify_sessions has been entered and waits for its header refresh (the schedule asked to stop there).'''
+
+
 class FullStack(MempoolRun):
     def __init__(self, events=(), **kw):
         super().__init__(events, **kw)
@@ -103,8 +108,28 @@ class FullStack(MempoolRun):
         async def notify_sessions(height, touched):
             lab.boundary.append({'ev': 'note', 'h': height, 'n': len(touched)})
             lab.notes_sent.append({'h': height, 'stored': lab.db.state.height, 'window': bool(lab.window)})
-            await real_notify(height, touched)
+            lab.in_notify += 1
+            try:
+                await real_notify(height, touched)
+            finally:
+                lab.in_notify -= 1
         self.sm._notify_sessions = notify_sessions
+        # the header refresh at the start of _notify_sessions is a suspension point (it reads the header through a worker
+        # job): when the schedule asks for it, the refresh is held back there by a gate - the same as a slow worker
+        real_refresh = self.sm._refresh_hsub_results
+        self.in_notify = 0
+        self.split_notify = False
+
+        async def refresh(height):
+            if lab.split_notify and lab.in_notify:
+                from harness.detloop import Gate
+                await Gate(lab.loop, 'nbegin', lab.gates).future
+            await real_refresh(height)
+        self.sm._refresh_hsub_results = refresh
+
+    def check_split(self):
+        if any(g.name == 'nbegin' for g in self.gates):
+            raise NotifyBegun()
 
     def start_serving(self):
         '''What SessionManager.serve does once the mempool is synchronised.'''
@@ -209,6 +234,7 @@ class FullStack(MempoolRun):
         '''One step of one component.  Returns False when that component has nothing to do.'''
         self.loop.run_until_idle()
         self.check_tasks()
+        self.check_split()
         if kind == 'bp':
             jobs = self.bp_jobs()
             if jobs:
@@ -276,7 +302,7 @@ class FullStack(MempoolRun):
             after = (len(self.boundary), sum(len(c.transport.out) for c in self.clients.values()))
             if rnd >= 1 and self.bp_idle() and not self.session_jobs() and after[1] == before[1]:
                 return
-        raise RuntimeError('quiesce: the stack does not come to rest')
+        raise NoProgress('quiesce: the stack does not come to rest')
 
     # ------------------------------------------------------------------ oracle helpers (hashing only)
     @staticmethod
